@@ -154,6 +154,16 @@ func runPrune(t *testing.T, run *emit.Run, n int) {
 		}
 		ids := r.Perm(10)[:nv]
 		shares := pruneShares(r, nv)
+		// scripted first case: one validator with 6 % attests and sends its evidence again
+		scripted := i == 0
+		if scripted {
+			nv = 10
+			ids = []int{0, 1, 2, 3, 4, 5, 6, 7, 8, 9}
+			shares = nil
+			for j := 0; j < 10; j++ {
+				shares = append(shares, big.NewInt([]int64{600, 1000, 1000, 1000, 1000, 1000, 1000, 1000, 1000, 1400}[j]))
+			}
+		}
 		tot := new(big.Int)
 		sn := &valsettypes.Snapshot{}
 		var snItems []string
@@ -169,12 +179,15 @@ func runPrune(t *testing.T, run *emit.Run, n int) {
 		case 1:
 			tot = big.NewInt(0)
 		}
+		if scripted {
+			tot = big.NewInt(10000)
+		}
 		sn.TotalShares = sdkmath.NewIntFromBigInt(tot)
 		vs.snap, vs.calls, vs.jailed = sn, nil, nil
 		vs.refuse = map[int]bool{}
 		var refuse []string
 		for _, id := range ids {
-			if r.Intn(6) == 0 {
+			if r.Intn(6) == 0 && !scripted {
 				vs.refuse[id] = true
 				refuse = append(refuse, fmt.Sprint(id))
 			}
@@ -190,6 +203,9 @@ func runPrune(t *testing.T, run *emit.Run, n int) {
 			public, errd = true, true
 		default:
 			public = true
+		}
+		if scripted {
+			public, errd = true, false
 		}
 		requireGas := r.Intn(3) == 0
 		opts.RequireGasEstimation = requireGas
@@ -212,24 +228,65 @@ func runPrune(t *testing.T, run *emit.Run, n int) {
 		// evidence: aim at a fraction of the total
 		target := r.Intn(5) // 0 none, 1 around 10 %, 2 around 2/3, 3 random subset, 4 everybody
 		order := r.Perm(12)
-		var evItems []string
-		votes := new(big.Int)
+		var subItems []string // every accepted MsgAddEvidence, in order
+		var firstOrder []int  // validators in order of their first accepted submission
+		votes := new(big.Int) // the DISTINCT attesting share, computed here
 		submitted := map[int]bool{}
 		nproofs := 1 + r.Intn(3)
 		if r.Intn(10) == 0 {
 			nproofs = 4
 		}
+		if scripted {
+			target, order = 3, nil
+		}
+		shareOf := func(v int) (*big.Int, bool) {
+			for j, sid := range ids {
+				if sid == v {
+					return shares[j], true
+				}
+			}
+			return new(big.Int), false
+		}
+		// send goes through the real keeper entry point (AddMessageEvidence)
+		send := func(v, pi int) bool {
+			p := proofs[pi]
+			a, err := p.mk()
+			if err != nil {
+				t.Fatal(err)
+			}
+			if err := k.AddMessageEvidence(ctx, pvalAddr(v), &types.MsgAddEvidence{Proof: a, MessageID: id, QueueTypeName: qname}); err != nil {
+				if p.bad {
+					// trees that validate proofs at submission refuse the unhashable one: this
+					// validator then simply has no evidence entry (it stays silent)
+					run.Count("prune-bad-proof", "refused at submission")
+					return false
+				}
+				t.Fatalf("AddMessageEvidence: %v", err)
+			} else if p.bad {
+				run.Count("prune-bad-proof", "stored")
+			}
+			share, inside := shareOf(v)
+			if inside && !submitted[v] {
+				votes.Add(votes, share)
+			}
+			if !submitted[v] {
+				firstOrder = append(firstOrder, v)
+			}
+			submitted[v] = true
+			subItems = append(subItems, emit.Pair(emit.ZI(int64(v)), emit.ZI(int64(p.tag)), emit.ZI(int64(p.id)), emit.Bool(p.bad)))
+			return true
+		}
+		lastProof := map[int]int{}
+		if scripted {
+			send(0, 0)
+			send(0, 0)
+			lastProof[0] = 0
+		}
 		for _, v := range order {
 			if target == 0 {
 				break
 			}
-			share := new(big.Int)
-			inside := false
-			for j, sid := range ids {
-				if sid == v {
-					share, inside = shares[j], true
-				}
-			}
+			share, inside := shareOf(v)
 			switch target {
 			case 1:
 				lim := new(big.Int).Add(tot, big.NewInt(int64(r.Intn(3))*10))
@@ -249,33 +306,43 @@ func runPrune(t *testing.T, run *emit.Run, n int) {
 			if !inside && r.Intn(3) != 0 {
 				continue
 			}
-			p := proofs[r.Intn(nproofs)]
+			pi := r.Intn(nproofs)
 			if target == 4 && r.Intn(3) != 0 {
-				p = proofs[0]
+				pi = 0
 			}
-			a, err := p.mk()
-			if err != nil {
-				t.Fatal(err)
+			if send(v, pi) {
+				lastProof[v] = pi
 			}
-			if err := k.AddMessageEvidence(ctx, pvalAddr(v), &types.MsgAddEvidence{Proof: a, MessageID: id, QueueTypeName: qname}); err != nil {
-				if p.bad {
-					// trees that validate proofs at submission refuse the unhashable one: this
-					// validator then simply has no evidence entry (it stays silent)
-					run.Count("prune-bad-proof", "refused at submission")
-					continue
+			// a pigeon retrying at once
+			if submitted[v] && r.Intn(8) == 0 {
+				send(v, lastProof[v])
+				run.Count("prune-resend", "immediately, same proof")
+			}
+		}
+		// re-submissions: the first attester, later attesters, same proof and another proof, several times
+		if len(firstOrder) > 0 && r.Intn(2) == 0 {
+			nre := 1 + r.Intn(3)
+			for x := 0; x < nre; x++ {
+				v := firstOrder[0]
+				who := "first attester"
+				if r.Intn(2) == 0 {
+					v = firstOrder[r.Intn(len(firstOrder))]
+					who = "any attester"
 				}
-				t.Fatalf("AddMessageEvidence: %v", err)
-			} else if p.bad {
-				run.Count("prune-bad-proof", "stored")
+				pi := lastProof[v]
+				what := "same proof"
+				if r.Intn(3) == 0 {
+					pi = r.Intn(nproofs)
+					what = "some proof"
+				}
+				if send(v, pi) {
+					lastProof[v] = pi
+				}
+				run.Count("prune-resend", who+", "+what)
 			}
-			if inside {
-				votes.Add(votes, share)
-			}
-			submitted[v] = true
-			evItems = append(evItems, emit.Pair(emit.ZI(int64(v)), emit.ZI(int64(p.tag)), emit.ZI(int64(p.id)), emit.Bool(p.bad)))
 		}
 		// force the boundaries: the recorded total is whatever the snapshot says (never re-derived)
-		if votes.Sign() > 0 {
+		if votes.Sign() > 0 && !scripted {
 			d := big.NewInt(int64(r.Intn(3) - 1))
 			switch r.Intn(8) {
 			case 0, 1:
@@ -288,13 +355,33 @@ func runPrune(t *testing.T, run *emit.Run, n int) {
 			}
 			sn.TotalShares = sdkmath.NewIntFromBigInt(tot)
 		}
-		// a second submission by the same validator replaces the first (Queue.AddEvidence); keep the list as stored
+		// the evidence list as the real queue holds it before pruning (what VerifyEvidence will sum over)
 		m, err := k.GetMessagesFromQueue(ctx, qname, 0)
 		if err != nil || len(m) != 1 {
 			t.Fatalf("queue read: %v (%d msgs)", err, len(m))
 		}
-		if len(m[0].GetEvidence()) != len(evItems) {
-			t.Fatalf("stored evidence %d != submitted %d", len(m[0].GetEvidence()), len(evItems))
+		var evItems []string
+		entries := map[int]int{}
+		for _, e := range m[0].GetEvidence() {
+			v := int(e.ValAddress[19])
+			entries[v]++
+			pi := -1
+			for j, p := range proofs {
+				a, _ := p.mk()
+				if e.Proof != nil && a.TypeUrl == e.Proof.TypeUrl && string(a.Value) == string(e.Proof.Value) {
+					pi = j
+				}
+			}
+			if pi < 0 {
+				t.Fatalf("stored proof not one of the submitted ones")
+			}
+			evItems = append(evItems, emit.Pair(emit.ZI(int64(v)), emit.ZI(int64(proofs[pi].tag)), emit.ZI(int64(proofs[pi].id)), emit.Bool(proofs[pi].bad)))
+		}
+		dupRep := map[string]any{"kind": "prune", "snapshot": snItems, "submissions(val,type,bytes)": subItems, "stored_evidence": evItems}
+		for v, c := range entries {
+			if c > 1 {
+				run.Violate("C13:evidence-entry-duplicated", fmt.Sprintf("validator %d has %d evidence entries on one message after re-sending: its shares are counted %d times", v, c, c), dupRep)
+			}
 		}
 
 		before := mx.n
@@ -309,7 +396,8 @@ func runPrune(t *testing.T, run *emit.Run, n int) {
 
 		// ---- direct oracle on what the real keeper did ----
 		rep := map[string]any{"kind": "prune", "snapshot": snItems, "total": tot.String(), "public": public, "error": errd,
-			"evidence(val,type,bytes)": evItems, "refuse": refuse, "jail_calls": vs.calls}
+			"submissions(val,type,bytes)": subItems, "stored_evidence(val,type,bytes)": evItems, "distinct_attesting_share": votes.String(),
+			"refuse": refuse, "jail_calls": vs.calls}
 		for _, c := range vs.calls {
 			in := false
 			for _, sid := range ids {
@@ -344,7 +432,7 @@ func runPrune(t *testing.T, run *emit.Run, n int) {
 		run.Count("kind", "prune")
 		run.Count("prune-outcome", cls)
 		sortedJ := append([]int{}, vs.jailed...)
-		run.Case(fmt.Sprintf("C13.CPrune %s %s %s %s %s %s %s %s", emit.List(snItems), emit.Z(tot), emit.Bool(public), emit.Bool(errd),
-			emit.List(evItems), emit.List(refuse), intsCoq(vs.calls), intsCoq(sortedJ)), len(vs.calls) > 0 || cls == "below-floor", rep)
+		run.Case(fmt.Sprintf("C13.CPrune %s %s %s %s %s %s %s %s %s", emit.List(snItems), emit.Z(tot), emit.Bool(public), emit.Bool(errd),
+			emit.List(subItems), emit.List(evItems), emit.List(refuse), intsCoq(vs.calls), intsCoq(sortedJ)), len(vs.calls) > 0 || cls == "below-floor", rep)
 	}
 }
